@@ -12,6 +12,8 @@ Open Scope N_scope.
 Definition run1 := (nat * list ablock * list str * copyres * copyres)%type.
 
 Inductive case :=
+(* CNote: a case judged by the harness's direct oracle only (one log with a huge array) *)
+| CNote
 | CRun (t : cls) (pre : catalog) (c : root) (accepted : bool) (printed : list N) (mig : option catalog) (runs : list run1).
 
 Definition strs_eqb := list_eqb str_eqb.
@@ -46,6 +48,7 @@ Fixpoint check_runs (cat : catalog) (igs : list integ) (d : db) (runs : list run
 Definition check (c : case) : bool :=
   gen_ok &&
   match c with
+  | CNote => true
   | CRun t pre c acc printed mig runs =>
       match validate_fix (mk_uni t) G c with
       | None => negb acc
